@@ -31,6 +31,10 @@ INSTANCES = {
     "LabDUP": dict(module="MC_Lab", consts=dict(Names="DUP_Names", Shape="DUP_Shape", InitVes="DUP_Init", Regions="PL_Regions",
                                                 Forms="DUP_Forms", Fracs="PL_Fracs", CapStep="PL_CapStep", RemoveCases="DUP_Remove",
                                                 FillCases="DUP_Fill", FillDeltas="PL_FillDeltas"), den_bound=1728),
+    # two lots of one enzyme
+    "LabLOT": dict(module="MC_Lab", consts=dict(Subst="SubstLot", Names="LOT_Names", Shape="LOT_Shape", InitVes="LOT_Init",
+                                                Forms="LOT_Forms", Fracs="LOT_Fracs", SolCases="LOT_Sol", FillCases="LOT_Fill",
+                                                FillDeltas="LOT_FillDeltas"), den_bound=1000),
     # create_solution / create_solution_from tables (one step from the initial state)
     "LabSOL": dict(module="MC_Lab", consts=dict(Subst="Subst5", Names="SOL_Names", Shape="SOL_Shape", InitVes="SOL_Init",
                                                 SolCases="SOL_CasesQuick", FromCases="SOL_FromQuick"), den_bound=1000),
